@@ -1,0 +1,21 @@
+//go:build verif
+// +build verif
+
+package runner
+
+// VerifYield and VerifNote are simulator hooks, only compiled with the `verif` build tag.
+// VerifYield may block the calling goroutine until the simulator releases it; VerifNote never blocks.
+var VerifYield func(kind string, subject interface{})
+var VerifNote func(kind string, subject interface{})
+
+func verifYield(kind string, subject interface{}) {
+	if f := VerifYield; f != nil {
+		f(kind, subject)
+	}
+}
+
+func verifNote(kind string, subject interface{}) {
+	if f := VerifNote; f != nil {
+		f(kind, subject)
+	}
+}
